@@ -988,7 +988,7 @@ def eval_history(ctx, st, case, r, items, imeta):
         ctx.violation('C14/history/fatal', 'the history could not be run', case, 'a completed history', r['fatal'], how)
         return False
     prev = r['init']
-    last_est = None
+    pk_content = {}
     taken = False
     M, db = case['model'], case['dbname']
     for idx, s in enumerate(r['steps']):
@@ -1023,17 +1023,22 @@ def eval_history(ctx, st, case, r, items, imeta):
                 st.disagree(wit, 'at most biogeme.toml is created', obs)
         elif k == 'estimate':
             exp = [(M, 'html', s['ret']['html']), (M, 'pickle', s['ret']['pickle'])]
-            last_est = (s['ret'], s['ret']['pickle'])
+            if s['ret']['pickle'] in cur:
+                pk_content[cur[s['ret']['pickle']][0]] = s['ret']['betas']
         elif k == 'recycle':
             pk = model_pickles(M, files_prev)
             if pk:
                 if new:
                     st.disagree(wit, 'recycling writes nothing', obs)
-                if last_est and sorted(pk)[-1] == last_est[1]:
-                    # the file saved by the last estimation is the one that is recycled: same estimates
-                    if s['ret']['betas'] != last_est[0]['betas'] or s['ret']['loglike'] != last_est[0]['loglike']:
-                        ctx.violation('C14/history/recycle-differs', 'estimate(recycle=True) does not return the saved estimates',
-                                      wit, last_est[0], s['ret'], how)
+                # every pickle of this model in the directory has known estimates: decoys and write_pickle hold the
+                # synthetic values, estimate() its own (tracked by content hash, so renames / copies do not matter)
+                want = pk_content.get(prev[sorted(pk)[-1]][0], case['synth']['values'])
+                saved = [pk_content.get(prev[f][0], case['synth']['values']) for f in pk]
+                if s['ret']['betas'] not in saved:
+                    ctx.violation('C14/history/recycle-differs', 'estimate(recycle=True) returns estimates that no saved '
+                                  f'pickle of the model holds ({sorted(pk)})', wit, saved, s['ret'], how)
+                elif s['ret']['betas'] != want:
+                    st.disagree(wit, {'file': sorted(pk)[-1], 'betas': want}, s['ret'], 'recycled file is not the last candidate')
             else:
                 exp = 'any'
         elif k == 'validate':
